@@ -89,7 +89,7 @@ def run(prop_id: str, tier: str, seed: int) -> vlib.Outcome:
     binary = os.path.join(vlib.TARGET_DIR, "release", "abisym")
     res = os.path.join(OUT_DIR, "%s_%s.json" % (prop_id, tier))
     jobs = int(os.environ.get("VERIF_JOBS", "14"))
-    timeout = 60 if tier == "quick" else 300
+    timeout = 150 if tier == "quick" else 400
     cmd = [binary, "--prop", prop_id, "--tier", tier, "--seed", str(seed), "--jobs", str(jobs), "--out", res,
            "--timeout", str(timeout), "--solver", "z3-new",
            "--cvc5-every", "40" if tier == "quick" else "7"]
@@ -102,6 +102,25 @@ def run(prop_id: str, tier: str, seed: int) -> vlib.Outcome:
         return out
     doc = json.load(open(res))
     items = doc["items"]
+    # Oracle self-test (thorough tier, C01 only): with a deliberately wrong
+    # reference the same machinery must report violations, else it is blind.
+    if tier == "thorough" and prop_id == "C01":
+        selftest = {}
+        for mut, flt, what in ((1, "u64", "64-bit alignment 4"), (2, "lower-flat/s", "signed ints zero-extended in flat form"),
+                               (3, "lower-flat/option<", "unused variant slots must be 1")):
+            sres = os.path.join(OUT_DIR, "selftest_%d.json" % mut)
+            scmd = [binary, "--prop", "C01", "--tier", "quick", "--jobs", str(jobs), "--out", sres, "--timeout", "60",
+                    "--solver", "z3-new", "--mutate-oracle", str(mut), "--filter", flt]
+            vlib.run_cmd(scmd, cwd=OUT_DIR, timeout=1800)
+            try:
+                sit = json.load(open(sres))["items"]
+            except Exception:
+                sit = []
+            nviol = len([i for i in sit if i["status"] == "violation"])
+            selftest["oracle-mutation-%d (%s)" % (mut, what)] = {"programs": len(sit), "violations_reported": nviol}
+            if nviol == 0:
+                out.inconclusive.append("oracle self-test %d (%s) reported no violation: the check is blind to it" % (mut, what))
+        out.extra["mutated_oracle_selftest"] = selftest
     out.checker_cmd = " ".join(cmd)
     out.programs = 0
     fams = {}
